@@ -64,6 +64,10 @@ func Run(c *hx.Ctx) {
 			runTF(c, genTF(c, i))
 		}
 	}
+	if only == "" || only == "hw" {
+		initEnv()
+		runHandoverWrites(c)
+	}
 	if only == "" || only == "vl" {
 		initEnv()
 		for _, g := range fixedVL {
